@@ -64,7 +64,7 @@ struct C18Model : mcx::Model {
         add(RESET, 0, 0, "reset()");
         add(BANK, 0, 0, "openBankData(A)"); add(BANK, 1, 0, "openBankData(B: lfo on/3, OPNA)"); add(BANK, 2, 0, "openBankData(garbage)"); add(BANK, 3, 0, "openBankData(truncated)"); add(BANK, 4, 0, "openBankData(empty)");
         add(MUSIC, 0, 0, "openData(song)"); add(MUSIC, 1, 0, "openData(garbage)"); add(MUSIC, 2, 0, "openData(truncated song)"); add(MUSIC, 3, 0, "openData(division 0)"); add(MUSIC, 4, 0, "openData(well-formed CMF: parsed, then refused)"); add(MUSIC, 5, 0, "openData(well-formed IMF: parsed, then refused)"); add(MUSIC, 6, 0, "openData(EA-MUS song: forces 2 chips while loaded)");
-        add(TRACKOPT, 0, OPNMIDI_TrackOption_Off, "setTrackOptions(0,Off)"); add(TRACKOPT, 1, OPNMIDI_TrackOption_Solo, "setTrackOptions(1,Solo)"); add(TRACKOPT, 2, OPNMIDI_TrackOption_Off, "setTrackOptions(2,Off)"); add(TRACKOPT, -1, OPNMIDI_TrackOption_Off, "setTrackOptions(SIZE_MAX,Off)"); add(TRACKOPT, 0, 4, "setTrackOptions(0,On|4)");
+        add(TRACKOPT, 0, OPNMIDI_TrackOption_Off, "setTrackOptions(0,Off)"); add(TRACKOPT, 1, OPNMIDI_TrackOption_Solo, "setTrackOptions(1,Solo)"); add(TRACKOPT, 2, OPNMIDI_TrackOption_Off, "setTrackOptions(2,Off)"); add(TRACKOPT, -1, OPNMIDI_TrackOption_Off, "setTrackOptions(SIZE_MAX,Off)"); add(TRACKOPT, 0, 4, "setTrackOptions(0,On|4)"); add(TRACKOPT, 0, OPNMIDI_TrackOption_Off | 4, "setTrackOptions(0,Off|4)"); add(TRACKOPT, 1, OPNMIDI_TrackOption_Solo | 4, "setTrackOptions(1,Solo|4)");   // a known switch together with an unknown option bit: refused, so nothing may change
         add(CHANEN, 3, 0, "setChannelEnabled(3,0)"); add(CHANEN, 3, 1, "setChannelEnabled(3,1)"); add(CHANEN, 16, 0, "setChannelEnabled(16,0)"); add(CHANEN, -1, 0, "setChannelEnabled(SIZE_MAX,0)");
         add(SYSEX_DEV, 0, 0, "sysex master volume -> device 0"); add(SYSEX_DEV, 5, 0, "sysex master volume -> device 5");
         add(GETBANK_BAD, 128, 0, "getBank(lsb=128)"); add(GETBANK_BAD, 0, 2, "getBank(percussive=2)");
